@@ -55,6 +55,9 @@ def gen_history(rng):
         else:
             which = rng.choice(['string', 'string', 'textfile', 'textfiles', 'binary', 'frame'])
             o = {'op': which, 'kind': rng.choice(KINDS), 'slot': rng.randint(0, 2)}
+            if rng.random() < 0.15:
+                o['slot'] = 3                                   # (a slot of its own: another file than ref<n>.<ext>)
+                o['extcase'] = rng.choice(['upper', 'title'])
             if which == 'binary':
                 o['actual'] = [rng.choice([0, 10, 13, 255]) for _ in range(rng.randint(0, 6))]
             elif which == 'frame':
@@ -110,6 +113,7 @@ def run_history(ops, pre_existing):
                 obs.append({'op': 'set'})
                 continue
             ext = {'string': 'txt', 'textfile': 'txt', 'textfiles': 'txt', 'binary': 'bin', 'frame': 'parquet'}[o['op']]
+            ext = {'upper': ext.upper(), 'title': ext.title()}.get(o.get('extcase'), ext)     # (ref0.PARQUET, ref0.Txt ...)
             ref = os.path.join(refdir, 'ref%d.%s' % (o['slot'], ext))
             before = open(ref, 'rb').read() if os.path.exists(ref) else None
             before_all = cf.snapshot(refdir)
